@@ -5,6 +5,11 @@ NAME=$1; PID=${2:-${NAME%%-*}}; TIER=${3:-quick}
 WT=/tmp/seeded_wt_$NAME
 git -C /repo worktree remove --force $WT 2>/dev/null
 git -C /repo worktree add -q --detach $WT HEAD || exit 2
-if ! git -C $WT apply /verif/seeded/$NAME/patch.diff; then echo "PATCH-DOES-NOT-APPLY $NAME"; git -C /repo worktree remove --force $WT; exit 3; fi
+# the stored patch was made against the /repo HEAD of its day: fall back to a 3-way merge, then to patch(1) with fuzz
+if ! git -C $WT apply /verif/seeded/$NAME/patch.diff 2>/dev/null; then
+  if ! git -C $WT apply --3way /verif/seeded/$NAME/patch.diff 2>/dev/null; then
+    if ! (cd $WT && patch -p1 -F3 -s < /verif/seeded/$NAME/patch.diff); then echo "PATCH-DOES-NOT-APPLY $NAME"; git -C /repo worktree remove --force $WT; exit 3; fi
+  fi
+fi
 VERIF_REPO=$WT /verif/check $PID --tier $TIER 2>&1 | grep -E "^VIOLATION|^KNOWN-FINDING| OK tier| FAILED tier|^  -> " | head -8
 git -C /repo worktree remove --force $WT
